@@ -453,7 +453,8 @@ def render(r: random.Random, g: dict, only=None) -> str:
         if g['surface'] == 'config':
             return 'flow {\n route r1 { ' + body + ' }\n}\n'
         return 'announce flow route { ' + body + ' }'
-    fam = ('ipv4' if afi == 1 else 'ipv6') + (' flow-vpn' if rule['safi'] == 134 else ' flow')
+    # a rule with a route distinguisher is a flow-vpn rule whichever of the two family words the flat form uses
+    fam = ('ipv4' if afi == 1 else 'ipv6') + (' flow-vpn' if rule['safi'] == 134 and r.random() < 0.7 else ' flow')
     parts = ([f'rd {g["rd_text"]}'] if g['rd_text'] else []) + route_level + match + then
     return f'announce {fam} ' + ' '.join(parts)
 
